@@ -23,10 +23,488 @@ end
 /-- every type definition in scope is a well-formed parameter space -/
 def EnvWF (env : Env) : Prop := ∀ n s, (n, s) ∈ env → wf s = true
 
+/-! ### the YAML tree -/
+
+theorem yvalid_untag : ∀ (y : Y), yvalid y = true → yvalid y.untag = true
+  | .tagged _ v, h => by
+      simp only [yvalid] at h
+      simpa [Y.untag] using yvalid_untag v h
+  | .null, h => by simpa [Y.untag] using h
+  | .bool _, h => by simpa [Y.untag] using h
+  | .num _ _ _, h => by simpa [Y.untag] using h
+  | .str _, h => by simpa [Y.untag] using h
+  | .seq _, h => by simpa [Y.untag] using h
+  | .map _, h => by simpa [Y.untag] using h
+
+theorem yvalid_get : ∀ (m : YPairs) (n : String) (v : Y), yvalidPairs m = true → m.get n = some v → yvalid v = true
+  | .nil, _, _, _, h => by simp [YPairs.get] at h
+  | .cons k v' r, n, v, hm, h => by
+      simp only [yvalidPairs, Bool.and_eq_true] at hm
+      simp only [YPairs.get] at h
+      split at h
+      · injection h with h; subst h; exact hm.1.2
+      · exact yvalid_get r n v hm.2 h
+
+theorem asI64_inI64 (y : Y) (i : Int) (hy : yvalid y = true) (h : y.asI64 = some i) : inI64 i = true := by
+  have hu := yvalid_untag y hy
+  unfold Y.asI64 at h
+  split at h
+  · rename_i f i' u heq
+    rw [heq] at hu
+    subst h
+    simpa [yvalid, optAll] using hu
+  · simp at h
+
+/-! ### attribute extraction -/
+
+theorem exAttr_some {α} (m : YPairs) (name : String) (f : Y → Option α) (b : Bool) (a : α)
+    (h : exAttr m name f b = .ok (some a)) : ∃ v, m.get name = some v ∧ f v = some a := by
+  unfold exAttr at h
+  split at h
+  · rename_i v hv
+    split at h
+    · rename_i a' ha
+      injection h with h; injection h with h; subst h
+      exact ⟨v, hv, ha⟩
+    · simp at h
+  · split at h <;> simp at h
+
+theorem exReal_some (m : YPairs) (name : String) (b : Bool) (x : F64) (h : exReal m name b = .ok (some x)) :
+    x.isFinite = true := by
+  unfold exReal at h
+  split at h
+  · split at h
+    · rename_i hx; injection h with h; injection h with h; subst h; exact hx
+    · simp at h
+  · rename_i hne
+    exact absurd h (hne x)
+
+theorem exReal_opt (m : YPairs) (name : String) (b : Bool) (o : Option F64) (h : exReal m name b = .ok o) :
+    optAll F64.isFinite o = true := by
+  cases o with
+  | none => rfl
+  | some x => exact exReal_some m name b x h
+
+theorem exUsize_some (m : YPairs) (name : String) (b : Bool) (x : Nat) (h : exUsize m name b = .ok (some x)) :
+    x ≤ usizeMax := by
+  unfold exUsize at h
+  split at h
+  · split at h
+    · rename_i hx; injection h with h; injection h with h; subst h; exact hx
+    · simp at h
+  · rename_i hne
+    exact absurd h (hne x)
+
+theorem exInt_some (m : YPairs) (name : String) (b : Bool) (i : Int) (hm : yvalidPairs m = true)
+    (h : exInt m name b = .ok (some i)) : inI64 i = true := by
+  obtain ⟨v, hv, hi⟩ := exAttr_some m name Y.asI64 b i h
+  exact asI64_inI64 v i (yvalid_get m name v hm hv) hi
+
+theorem exInt_opt (m : YPairs) (name : String) (b : Bool) (o : Option Int) (hm : yvalidPairs m = true)
+    (h : exInt m name b = .ok o) : optAll inI64 o = true := by
+  cases o with
+  | none => rfl
+  | some x => exact exInt_some m name b x hm h
+
+theorem isFinite_fin (x : F64) (h : x.isFinite = true) : ∃ a, x = .fin a := by
+  cases x <;> simp [F64.isFinite] at h
+  exact ⟨_, rfl⟩
+
+theorem buildReal_wf (m : YPairs) (s : SNode) (h : buildReal m = .ok s) : wf s = true := by
+  unfold buildReal at h
+  split at h; · simp at h
+  split at h; · simp at h
+  rename_i mn hmn
+  split at h; · simp at h
+  rename_i mx hmx
+  have h1 := exReal_opt _ _ _ _ hmn
+  have h2 := exReal_opt _ _ _ _ hmx
+  rcases mn with _ | a <;> rcases mx with _ | b
+  all_goals simp only [optAll] at h1 h2
+  all_goals (try obtain ⟨a, rfl⟩ := isFinite_fin _ h1)
+  all_goals (try obtain ⟨b, rfl⟩ := isFinite_fin _ h2)
+  all_goals
+    simp only [] at h
+    split at h; · simp at h
+    rename_i hb
+    split at h; · simp at h
+    · simp at h
+    rename_i init hinit
+    obtain ⟨i, rfl⟩ := isFinite_fin _ (exReal_some _ _ _ _ hinit)
+    split at h; · simp at h
+    rename_i hi
+    split at h; · simp at h
+    · simp at h
+    rename_i scale hscale
+    obtain ⟨sc, rfl⟩ := isFinite_fin _ (exReal_some _ _ _ _ hscale)
+    split at h; · simp at h
+    rename_i hsc
+    injection h with h; subst h
+    simp [boundsSaneF, F64.ge, F64.gt, F64.le_fin, F64.lt_fin] at hb hi hsc
+    simp [wf, optAll, F64.isFinite, F64.le_fin, F64.lt_fin]
+    omega
+
+theorem buildInt_wf (m : YPairs) (s : SNode) (hm : yvalidPairs m = true) (h : buildInt m = .ok s) : wf s = true := by
+  unfold buildInt at h
+  split at h; · simp at h
+  split at h; · simp at h
+  rename_i mn hmn
+  split at h; · simp at h
+  rename_i mx hmx
+  have h1 := exInt_opt _ _ _ _ hm hmn
+  have h2 := exInt_opt _ _ _ _ hm hmx
+  rcases mn with _ | a <;> rcases mx with _ | b
+  all_goals
+    simp only [] at h
+    split at h; · simp at h
+    rename_i hb
+    split at h; · simp at h
+    · simp at h
+    rename_i init hinit
+    have h3 := exInt_some _ _ _ _ hm hinit
+    split at h; · simp at h
+    rename_i hi
+    split at h; · simp at h
+    · simp at h
+    rename_i scale hscale
+    obtain ⟨sc, rfl⟩ := isFinite_fin _ (exReal_some _ _ _ _ hscale)
+    split at h; · simp at h
+    rename_i hsc
+    injection h with h; subst h
+    simp [boundsSaneI, F64.le_fin] at hb hi hsc
+    simp only [optAll] at h1 h2
+    simp [wf, h1, h2, h3, optAll, F64.isFinite, F64.lt_fin]
+    omega
+
+theorem buildBool_wf (m : YPairs) (s : SNode) (h : buildBool m = .ok s) : wf s = true := by
+  unfold buildBool at h
+  split at h; · simp at h
+  split at h
+  · simp at h
+  · simp at h
+  · injection h with h; subst h; rfl
+
+theorem enumValues_length : ∀ (l : YList) (vs : List String), enumValues l = .ok vs → vs.length = l.length
+  | .nil, vs, h => by
+      simp only [enumValues] at h
+      injection h with h; subst h; rfl
+  | .cons y r, vs, h => by
+      cases y <;> simp only [enumValues] at h <;> try (simp at h; done)
+      split at h
+      · rename_i l hl
+        injection h with h; subst h
+        simp [YList.length, enumValues_length r l hl]
+      · simp at h
+
+theorem buildEnum_wf (m : YPairs) (s : SNode) (h : buildEnum m = .ok s) : wf s = true := by
+  unfold buildEnum at h
+  split at h; · simp at h
+  split at h; · simp at h
+  · simp at h
+  rename_i init hinit
+  split at h; · simp at h
+  · rename_i l hl
+    split at h; · simp at h
+    rename_i hlen
+    split at h; · simp at h
+    rename_i vs hvs
+    split at h; · simp at h
+    rename_i hd
+    split at h; · simp at h
+    rename_i hc
+    injection h with h; subst h
+    have := enumValues_length l vs hvs
+    simp only [wf, Bool.and_eq_true, decide_eq_true_eq]
+    refine ⟨⟨by omega, by simpa using hd⟩, by simpa using hc⟩
+  · simp at h
+
+/-! ### sorted key lists and `SFields.insert` -/
+
+theorem sortedStr_cons (a : String) : ∀ (l : List String), sortedStr (a :: l) = true ↔ ((∀ x ∈ l, a < x) ∧ sortedStr l = true)
+  | [] => by simp [sortedStr]
+  | b :: r => by
+      have ih := sortedStr_cons b r
+      simp only [sortedStr, Bool.and_eq_true, decide_eq_true_eq, List.mem_cons, forall_eq_or_imp]
+      constructor
+      · intro ⟨h1, h2⟩
+        refine ⟨⟨h1, fun x hx => ?_⟩, h2⟩
+        exact String.lt_trans h1 ((ih.1 h2).1 x hx)
+      · intro ⟨⟨h1, _⟩, h3⟩
+        exact ⟨h1, h3⟩
+
+theorem SFields.mem_insert_keys (k : String) (n : SNode) : ∀ (f : SFields) (x : String),
+    x ∈ (SFields.insert k n f).keys ↔ (x = k ∨ x ∈ f.keys)
+  | .nil, x => by simp [SFields.insert, SFields.keys]
+  | .cons k' n' r, x => by
+      simp only [SFields.insert]
+      split
+      · simp [SFields.keys]
+      · split
+        · rename_i h; have : k = k' := by simpa using h
+          subst this; simp [SFields.keys]
+        · simp only [SFields.keys, List.mem_cons, SFields.mem_insert_keys k n r x]
+          constructor <;> intro h <;> rcases h with h | h | h <;> simp [h]
+
+theorem SFields.insert_sorted (k : String) (n : SNode) : ∀ (f : SFields), sortedStr f.keys = true →
+    sortedStr (SFields.insert k n f).keys = true
+  | .nil, _ => by simp [SFields.insert, SFields.keys, sortedStr]
+  | .cons k' n' r, h => by
+      have h' := (sortedStr_cons k' r.keys).1 (by simpa [SFields.keys] using h)
+      simp only [SFields.insert]
+      split
+      · rename_i hlt
+        simp only [SFields.keys] at h ⊢
+        simp [sortedStr, hlt, h]
+      · split
+        · rename_i h2; have : k = k' := by simpa using h2
+          subst this; simpa [SFields.keys] using h
+        · rename_i h1 h2
+          have hne : ¬ k = k' := by simpa using h2
+          have hlt : k' < k := by
+            apply Decidable.byContradiction
+            intro hc
+            exact hne (String.le_antisymm hc h1)
+          simp only [SFields.keys]
+          rw [sortedStr_cons]
+          refine ⟨fun x hx => ?_, SFields.insert_sorted k n r h'.2⟩
+          rcases (SFields.mem_insert_keys k n r x).1 hx with hx | hx
+          · subst hx; exact hlt
+          · exact h'.1 x hx
+
+theorem SFields.insert_wf (k : String) (n : SNode) (hn : wf n = true) : ∀ (f : SFields),
+    wfFields f = true → wfFields (SFields.insert k n f) = true
+  | .nil, _ => by simp [SFields.insert, wfFields, hn]
+  | .cons k' n' r, h => by
+      simp only [wfFields, Bool.and_eq_true] at h
+      simp only [SFields.insert]
+      split
+      · simp [wfFields, hn, h]
+      · split
+        · simp [wfFields, hn, h]
+        · simp [wfFields, h, SFields.insert_wf k n hn r h.2]
+
+/-- inserting a key below all keys of a sorted list conses it -/
+theorem SFields.insert_lt (k : String) (n : SNode) : ∀ (f : SFields), (∀ x ∈ f.keys, k < x) → SFields.insert k n f = .cons k n f
+  | .nil, _ => rfl
+  | .cons k' n' r, h => by
+      have : k < k' := h k' (by simp [SFields.keys])
+      simp [SFields.insert, this]
+
+theorem Env.find_mem : ∀ (env : Env) (n : String) (s : SNode), Env.find env n = some s → ∃ k, (k, s) ∈ env
+  | [], _, _, h => by simp [Env.find] at h
+  | (k, s') :: r, n, s, h => by
+      simp only [Env.find] at h
+      split at h
+      · injection h with h; subst h; exact ⟨k, by simp⟩
+      · obtain ⟨k', hk'⟩ := Env.find_mem r n s h
+        exact ⟨k', by simp [hk']⟩
+
+/-! ### whatever `build` accepts is well-formed -/
+
+mutual
 /-- whatever `build` accepts is well-formed (given well-formed definitions in scope) -/
 theorem build_wf (env : Env) (y : Y) (s : SNode) (henv : EnvWF env) (hy : yvalid y = true)
     (h : build env y = .ok s) : wf s = true := by
-  sorry
+  cases y with
+  | map m => ?_
+  | _ => simp [build] at h
+  simp only [build] at h
+  simp only [yvalid] at hy
+  split at h; · simp at h
+  rename_i t ht
+  generalize t.getD "sub" = tn at h
+  by_cases hc : (tn == "real") = true
+  · rw [if_pos hc] at h; exact buildReal_wf m s h
+  rw [if_neg hc] at h; clear hc
+  by_cases hc : (tn == "int") = true
+  · rw [if_pos hc] at h; exact buildInt_wf m s hy h
+  rw [if_neg hc] at h; clear hc
+  by_cases hc : (tn == "bool") = true
+  · rw [if_pos hc] at h; exact buildBool_wf m s h
+  rw [if_neg hc] at h; clear hc
+  by_cases hc : (tn == "sub") = true
+  · rw [if_pos hc] at h
+    -- sub
+    split at h; · simp at h
+    rename_i env' henv'
+    split at h; · simp at h
+    rename_i f hf
+    split at h; · simp at h
+    rename_i hlen
+    injection h with h; subst h
+    have he' := subDefs_wf env m env' henv hy henv'
+    obtain ⟨h1, h2⟩ := subMembers_wf env' m f he' hy hf
+    have : f.length ≠ 0 := by simpa using hlen
+    simp only [wf, Bool.and_eq_true, decide_eq_true_eq]
+    exact ⟨⟨by omega, h2⟩, h1⟩
+  rw [if_neg hc] at h; clear hc
+  by_cases hc : (tn == "array") = true
+  · rw [if_pos hc] at h
+    -- array
+    split at h; · simp at h
+    split at h; · simp at h
+    · simp at h
+    rename_i e he
+    split at h; · simp at h
+    · simp at h
+    rename_i n hn
+    split at h; · simp at h
+    rename_i hn2
+    injection h with h; subst h
+    have := exUsize_some _ _ _ _ hn
+    simp only [wf, Bool.and_eq_true, decide_eq_true_eq]
+    exact ⟨⟨by omega, this⟩, valueTypeOf_wf env m e henv hy he⟩
+  rw [if_neg hc] at h; clear hc
+  by_cases hc : (tn == "anon map") = true
+  · rw [if_pos hc] at h
+    -- anon map
+    split at h; · simp at h
+    split at h; · simp at h
+    · simp at h
+    rename_i e he
+    split at h; · simp at h
+    rename_i mn hmn
+    split at h; · simp at h
+    rename_i mx hmx
+    have hwe := valueTypeOf_wf env m e henv hy he
+    rcases mn with _ | a <;> rcases mx with _ | b
+    all_goals
+      simp only [] at h
+      split at h; · simp at h
+      rename_i hb
+      split at h; · simp at h
+      rename_i hz
+      split at h; · simp at h
+      · simp at h
+      rename_i n hn
+      split at h; · simp at h
+      rename_i hi
+      injection h with h; subst h
+      have h3 := exUsize_some _ _ _ _ hn
+      try have h4 := exUsize_some _ _ _ _ hmx
+      simp [boundsSaneN] at hb hz hi
+      simp [wf, sizeOk, optAll, hwe, h3]
+      try omega
+  rw [if_neg hc] at h; clear hc
+  by_cases hc : (tn == "variant") = true
+  · rw [if_pos hc] at h
+    -- variant
+    split at h; · simp at h
+    · simp at h
+    rename_i init hinit
+    split at h; · simp at h
+    rename_i o ho
+    split at h; · simp at h
+    rename_i hlen
+    split at h; · simp at h
+    rename_i hc
+    injection h with h; subst h
+    obtain ⟨h1, h2⟩ := variantOpts_wf env m o henv hy ho
+    simp only [wf, Bool.and_eq_true, decide_eq_true_eq]
+    exact ⟨⟨⟨by omega, h2⟩, by simpa using hc⟩, h1⟩
+  rw [if_neg hc] at h; clear hc
+  by_cases hc : (tn == "enum") = true
+  · rw [if_pos hc] at h; exact buildEnum_wf m s h
+  rw [if_neg hc] at h; clear hc
+  by_cases hc : (tn == "optional") = true
+  · rw [if_pos hc] at h
+    -- optional
+    split at h; · simp at h
+    split at h; · simp at h
+    · simp at h
+    rename_i e he
+    split at h; · simp at h
+    · simp at h
+    injection h with h; subst h
+    simp only [wf]
+    exact valueTypeOf_wf env m e henv hy he
+  rw [if_neg hc] at h; clear hc
+  by_cases hc : (tn == "const") = true
+  · rw [if_pos hc] at h
+    -- const
+    split at h; · simp at h
+    injection h with h; subst h; rfl
+  · rw [if_neg hc] at h; clear hc
+    -- a type reference
+    split at h
+    · rename_i n hn
+      split at h; · simp at h
+      injection h with h; subst h
+      obtain ⟨k, hk⟩ := Env.find_mem env _ _ hn
+      exact henv k _ hk
+    · simp at h
+termination_by sizeOf y
+theorem subDefs_wf (env : Env) (m : YPairs) (env' : Env) (henv : EnvWF env) (hm : yvalidPairs m = true)
+    (h : subDefs env m = .ok env') : EnvWF env' := by
+  cases m with
+  | nil => simp only [subDefs] at h; injection h with h; subst h; exact henv
+  | cons k v r =>
+    simp only [yvalidPairs, Bool.and_eq_true] at hm
+    simp only [subDefs] at h
+    split at h; · simp at h
+    split at h
+    · split at h; · simp at h
+      split at h; · simp at h
+      rename_i n hn
+      refine subDefs_wf _ r env' ?_ hm.2 h
+      intro k' s' hmem
+      rcases List.mem_cons.1 hmem with heq | hmem
+      · injection heq with _ h2; subst h2
+        exact build_wf env v _ henv hm.1.2 hn
+      · exact henv k' s' hmem
+    · exact subDefs_wf env r env' henv hm.2 h
+termination_by sizeOf m
+theorem subMembers_wf (env : Env) (m : YPairs) (f : SFields) (henv : EnvWF env) (hm : yvalidPairs m = true)
+    (h : subMembers env m = .ok f) : wfFields f = true ∧ sortedStr f.keys = true := by
+  cases m with
+  | nil => simp only [subMembers] at h; injection h with h; subst h; simp [wfFields, SFields.keys, sortedStr]
+  | cons k v r =>
+    simp only [yvalidPairs, Bool.and_eq_true] at hm
+    simp only [subMembers] at h
+    split at h; · exact subMembers_wf env r f henv hm.2 h
+    split at h
+    · split at h; · simp at h
+      rename_i n hn
+      split at h; · simp at h
+      rename_i f' hf'
+      injection h with h; subst h
+      obtain ⟨h1, h2⟩ := subMembers_wf env r f' henv hm.2 hf'
+      exact ⟨SFields.insert_wf _ n (build_wf env v n henv hm.1.2 hn) f' h1, SFields.insert_sorted _ n f' h2⟩
+    · exact subMembers_wf env r f henv hm.2 h
+termination_by sizeOf m
+theorem variantOpts_wf (env : Env) (m : YPairs) (f : SFields) (henv : EnvWF env) (hm : yvalidPairs m = true)
+    (h : variantOpts env m = .ok f) : wfFields f = true ∧ sortedStr f.keys = true := by
+  cases m with
+  | nil => simp only [variantOpts] at h; injection h with h; subst h; simp [wfFields, SFields.keys, sortedStr]
+  | cons k v r =>
+    simp only [yvalidPairs, Bool.and_eq_true] at hm
+    simp only [variantOpts] at h
+    split at h; · simp at h
+    split at h
+    · split at h; · simp at h
+      rename_i n hn
+      split at h; · simp at h
+      rename_i f' hf'
+      injection h with h; subst h
+      obtain ⟨h1, h2⟩ := variantOpts_wf env r f' henv hm.2 hf'
+      exact ⟨SFields.insert_wf _ n (build_wf env v n henv hm.1.2 hn) f' h1, SFields.insert_sorted _ n f' h2⟩
+    · exact variantOpts_wf env r f henv hm.2 h
+termination_by sizeOf m
+theorem valueTypeOf_wf (env : Env) (m : YPairs) (e : SNode) (henv : EnvWF env) (hm : yvalidPairs m = true)
+    (h : valueTypeOf env m = .ok (some e)) : wf e = true := by
+  cases m with
+  | nil => simp [valueTypeOf] at h
+  | cons k v r =>
+    simp only [yvalidPairs, Bool.and_eq_true] at hm
+    simp only [valueTypeOf] at h
+    split at h
+    · split at h; · simp at h
+      rename_i n hn
+      injection h with h; injection h with h; subst h
+      exact build_wf env v n henv hm.1.2 hn
+    · exact valueTypeOf_wf env r e henv hm.2 h
+termination_by sizeOf m
+end
 
 /-- an accepted document denotes a well-formed parameter space -/
 theorem parseSpec_wf (y : Y) (s : SNode) (hy : yvalid y = true) (h : parseSpec y = .ok s) : wf s = true :=
@@ -90,10 +568,218 @@ def keysWritableFields : SFields → Bool
   | .nil => true | .cons _ n r => keysWritable n && keysWritableFields r
 end
 
+/-! ### reading the canonical document back -/
+
+@[simp] theorem YPairs.get_cons_str (k : String) (v : Y) (r : YPairs) (n : String) :
+    (YPairs.cons (.str k) v r).get n = if k = n then some v else r.get n := by
+  simp [YPairs.get]
+@[simp] theorem YPairs.get_nil (n : String) : YPairs.nil.get n = none := rfl
+
+@[simp] theorem asF64_yFloat (x : F64) : (yFloat x).asF64 = some x := rfl
+@[simp] theorem asF64_yInt (cast i) : (yInt cast i).asF64 = some (cast i) := rfl
+@[simp] theorem asI64_yInt (cast i) : (yInt cast i).asI64 = some i := rfl
+@[simp] theorem asU64_yNat (cast n) : (yNat cast n).asU64 = some n := rfl
+@[simp] theorem asStr_str (s : String) : (Y.str s).asStr = some s := rfl
+@[simp] theorem asBool_bool (b : Bool) : (Y.bool b).asBool = some b := rfl
+
+theorem build_render_real (cast : Int → F64) (env : Env) (init scale mn mx)
+    (hs : wf (.real init scale mn mx) = true) :
+    build env (render cast (.real init scale mn mx)) = .ok (.real init scale mn mx) := by
+  simp only [wf, Bool.and_eq_true] at hs
+  obtain ⟨⟨⟨⟨⟨⟨⟨h1, h2⟩, h3⟩, h4⟩, h5⟩, h6⟩, h7⟩, h8⟩ := hs
+  obtain ⟨i, rfl⟩ := isFinite_fin _ h1
+  obtain ⟨sc, rfl⟩ := isFinite_fin _ h2
+  rcases mn with _ | a <;> rcases mx with _ | b
+  all_goals simp only [optAll] at h4 h5
+  all_goals (try obtain ⟨a, rfl⟩ := isFinite_fin _ h4)
+  all_goals (try obtain ⟨b, rfl⟩ := isFinite_fin _ h5)
+  all_goals
+    simp [optAll, F64.le_fin, F64.lt_fin] at h3 h6 h7 h8
+    simp [render, build, exStr, exAttr, optPair, buildReal, exReal, checkUnexpected, Generated.realAttrs,
+      F64.isFinite, boundsSaneF, F64.ge, F64.gt, F64.le_fin, F64.lt_fin]
+  all_goals (repeat' split)
+  all_goals first | rfl | omega
+
+theorem build_render_int (cast : Int → F64) (env : Env) (init scale mn mx)
+    (hs : wf (.int init scale mn mx) = true) :
+    build env (render cast (.int init scale mn mx)) = .ok (.int init scale mn mx) := by
+  simp only [wf, Bool.and_eq_true] at hs
+  obtain ⟨⟨⟨⟨⟨⟨⟨h1, h2⟩, h3⟩, h4⟩, h5⟩, h6⟩, h7⟩, h8⟩ := hs
+  obtain ⟨sc, rfl⟩ := isFinite_fin _ h4
+  rcases mn with _ | a <;> rcases mx with _ | b
+  all_goals
+    simp [optAll, F64.lt_fin] at h5 h6 h7 h8
+    simp [render, build, exStr, exAttr, optPair, buildInt, exInt, exReal, checkUnexpected, Generated.intAttrs,
+      F64.isFinite, boundsSaneI, F64.le_fin]
+  all_goals (repeat' split)
+  all_goals first | rfl | omega
+
+theorem build_render_bool (cast : Int → F64) (env : Env) (b : Bool) :
+    build env (render cast (.bool b)) = .ok (.bool b) := by
+  simp [render, build, exStr, exAttr, buildBool, exBool, checkUnexpected, Generated.boolAttrs]
+
+theorem build_render_const (cast : Int → F64) (env : Env) :
+    build env (render cast .const) = .ok .const := by
+  simp [render, build, exStr, exAttr, checkUnexpected, Generated.constAttrs]
+
+theorem enumValues_strSeq : ∀ (vs : List String), enumValues (strSeq vs) = .ok vs
+  | [] => rfl
+  | s :: r => by simp [strSeq, enumValues, enumValues_strSeq r]
+
+theorem strSeq_length : ∀ (vs : List String), (strSeq vs).length = vs.length
+  | [] => rfl
+  | s :: r => by simp [strSeq, YList.length, strSeq_length r]
+
+theorem build_render_enum (cast : Int → F64) (env : Env) (vs init)
+    (hs : wf (.enum vs init) = true) :
+    build env (render cast (.enum vs init)) = .ok (.enum vs init) := by
+  simp only [wf, Bool.and_eq_true, decide_eq_true_eq] at hs
+  obtain ⟨⟨h1, h2⟩, h3⟩ := hs
+  have : ¬ vs.length < 2 := by omega
+  simp [render, build, exStr, exAttr, buildEnum, checkUnexpected, Generated.enumAttrs, enumValues_strSeq,
+    strSeq_length, this, h2]
+  simpa using h3
+
+theorem build_render_array (cast : Int → F64) (env : Env) (e : SNode) (n : Nat)
+    (hs : wf (.array e n) = true) (ih : build env (render cast e) = .ok e) :
+    build env (render cast (.array e n)) = .ok (.array e n) := by
+  simp only [wf, Bool.and_eq_true, decide_eq_true_eq] at hs
+  obtain ⟨⟨h1, h2⟩, _⟩ := hs
+  have : ¬ n < 2 := by omega
+  simp [render, build, exStr, exAttr, checkUnexpected, Generated.arrayAttrs, valueTypeOf, ih, exUsize, h2, this]
+
+theorem build_render_opt (cast : Int → F64) (env : Env) (e : SNode) (p : Bool)
+    (ih : build env (render cast e) = .ok e) :
+    build env (render cast (.opt e p)) = .ok (.opt e p) := by
+  simp [render, build, exStr, exAttr, checkUnexpected, Generated.optionalAttrs, valueTypeOf, ih, exBool]
+
+theorem build_render_amap (cast : Int → F64) (env : Env) (e : SNode) (n : Nat) (mn mx : Option Nat)
+    (hs : wf (.amap e n mn mx) = true) (ih : build env (render cast e) = .ok e) :
+    build env (render cast (.amap e n mn mx)) = .ok (.amap e n mn mx) := by
+  simp only [wf, Bool.and_eq_true, decide_eq_true_eq] at hs
+  obtain ⟨⟨⟨⟨⟨h1, h2⟩, h3⟩, h4⟩, h5⟩, _⟩ := hs
+  rcases mn with _ | a <;> rcases mx with _ | b
+  all_goals
+    simp [sizeOk, optAll] at h1 h2 h3 h5
+  · simp [render, build, exStr, exAttr, checkUnexpected, Generated.anonMapAttrs, valueTypeOf, ih, exUsize, optPair,
+      boundsSaneN, h4]
+  · have e1 : ¬ n > b := by omega
+    simp [render, build, exStr, exAttr, checkUnexpected, Generated.anonMapAttrs, valueTypeOf, ih, exUsize, optPair,
+      boundsSaneN, h4, h5, h2, e1]
+  · have e1 : ¬ n < a := by omega
+    have e2 : a ≤ usizeMax := by omega
+    simp [render, build, exStr, exAttr, checkUnexpected, Generated.anonMapAttrs, valueTypeOf, ih, exUsize, optPair,
+      boundsSaneN, h4, e1, e2]
+  · have e1 : ¬ n < a := by omega
+    have e2 : a ≤ usizeMax := by omega
+    have e3 : ¬ n > b := by omega
+    have e4 : ¬ a ≥ b := by omega
+    simp [render, build, exStr, exAttr, checkUnexpected, Generated.anonMapAttrs, valueTypeOf, ih, exUsize, optPair,
+      boundsSaneN, h4, h5, h2, e1, e2, e3, e4]
+
+theorem subDefs_renderFields (cast : Int → F64) (env : Env) : ∀ (f : SFields),
+    (∀ k ∈ f.keys, k.startsWith Generated.typeDefPrefixDefs = false) → subDefs env (renderFields cast f) = .ok env
+  | .nil, _ => by simp [renderFields, subDefs]
+  | .cons k n r, h => by
+      have h1 := h k (by simp [SFields.keys])
+      have h2 := subDefs_renderFields cast env r (fun x hx => h x (by simp [SFields.keys, hx]))
+      simp [renderFields, subDefs, h1, h2]
+
+theorem SFields.length_eq_keys : ∀ (f : SFields), f.length = f.keys.length
+  | .nil => rfl
+  | .cons _ _ r => by simp [SFields.length, SFields.keys, SFields.length_eq_keys r]
+
+theorem build_render_sub (cast : Int → F64) (env : Env) (f : SFields)
+    (hs : wf (.sub f) = true)
+    (hk : ∀ k ∈ f.keys, k.startsWith Generated.typeDefPrefixDefs = false)
+    (ih : subMembers env (renderFields cast f) = .ok f) :
+    build env (render cast (.sub f)) = .ok (.sub f) := by
+  simp only [wf, Bool.and_eq_true, decide_eq_true_eq] at hs
+  have hlen : f.length ≠ 0 := by omega
+  have hp : "type".startsWith Generated.typeDefPrefixDefs = false := by decide
+  simp [render, build, exStr, exAttr, subDefs, subMembers, hp, subDefs_renderFields cast env f hk, ih, hlen]
+
+theorem build_render_variant (cast : Int → F64) (env : Env) (o : SFields) (init : String)
+    (hs : wf (.variant o init) = true)
+    (ih : variantOpts env (renderFields cast o) = .ok o) :
+    build env (render cast (.variant o init)) = .ok (.variant o init) := by
+  simp only [wf, Bool.and_eq_true, decide_eq_true_eq] at hs
+  obtain ⟨⟨⟨h1, h2⟩, h3⟩, h4⟩ := hs
+  have hlen : ¬ o.length < 2 := by omega
+  simp [render, build, exStr, exAttr, variantOpts, ih, hlen]
+  simpa using h3
+
+mutual
 /-- every well-formed parameter space (with writable names) can be written down and is read back exactly, in any
     scope of type definitions -/
 theorem build_render (cast : Int → F64) (hcast : ∀ i, (cast i).isFinite = true) (env : Env) (s : SNode)
     (hs : wf s = true) (hk : keysWritable s = true) : build env (render cast s) = .ok s := by
-  sorry
+  cases s with
+  | real init scale mn mx => exact build_render_real cast env init scale mn mx hs
+  | int init scale mn mx => exact build_render_int cast env init scale mn mx hs
+  | bool b => exact build_render_bool cast env b
+  | const => exact build_render_const cast env
+  | «enum» vs init => exact build_render_enum cast env vs init hs
+  | array e n =>
+      have hs' := hs
+      simp only [wf, Bool.and_eq_true] at hs'
+      simp only [keysWritable] at hk
+      exact build_render_array cast env e n hs (build_render cast hcast env e hs'.2 hk)
+  | opt e p =>
+      have hs' := hs
+      simp only [wf] at hs'
+      simp only [keysWritable] at hk
+      exact build_render_opt cast env e p (build_render cast hcast env e hs' hk)
+  | amap e n mn mx =>
+      have hs' := hs
+      simp only [wf, Bool.and_eq_true] at hs'
+      simp only [keysWritable] at hk
+      exact build_render_amap cast env e n mn mx hs (build_render cast hcast env e hs'.2 hk)
+  | sub f =>
+      have hs' := hs
+      simp only [wf, Bool.and_eq_true] at hs'
+      simp only [keysWritable, Bool.and_eq_true, List.all_eq_true, Bool.not_eq_true', bne_iff_ne, ne_eq] at hk
+      refine build_render_sub cast env f hs (fun k hkm => (hk.1 k hkm).1.2) ?_
+      exact subMembers_render cast hcast env f hs'.2 hs'.1.2
+        (fun k hkm => by simp [(hk.1 k hkm).1.1, (hk.1 k hkm).2]) hk.2
+  | variant o init =>
+      have hs' := hs
+      simp only [wf, Bool.and_eq_true] at hs'
+      simp only [keysWritable, Bool.and_eq_true, List.all_eq_true, bne_iff_ne, ne_eq] at hk
+      refine build_render_variant cast env o init hs ?_
+      exact variantOpts_render cast hcast env o hs'.2 hs'.1.1.2
+        (fun k hkm => by simp [(hk.1 k hkm).1, (hk.1 k hkm).2]) hk.2
+termination_by sizeOf s
+theorem subMembers_render (cast : Int → F64) (hcast : ∀ i, (cast i).isFinite = true) (env : Env) (f : SFields)
+    (hw : wfFields f = true) (hsort : sortedStr f.keys = true)
+    (hkeys : ∀ k ∈ f.keys, (k != "type" && !k.startsWith Generated.typeDefPrefixMembers) = true)
+    (hk : keysWritableFields f = true) : subMembers env (renderFields cast f) = .ok f := by
+  cases f with
+  | nil => simp [renderFields, subMembers]
+  | cons k n r =>
+    simp only [wfFields, Bool.and_eq_true] at hw
+    simp only [keysWritableFields, Bool.and_eq_true] at hk
+    have hs' := (sortedStr_cons k r.keys).1 (by simpa [SFields.keys] using hsort)
+    have h1 := build_render cast hcast env n hw.1 hk.1
+    have h2 := subMembers_render cast hcast env r hw.2 hs'.2 (fun x hx => hkeys x (by simp [SFields.keys, hx])) hk.2
+    have h3 := hkeys k (by simp [SFields.keys])
+    simp only [renderFields, subMembers, asStr_str, h3, if_true, h1, h2, SFields.insert_lt k n r hs'.1]
+termination_by sizeOf f
+theorem variantOpts_render (cast : Int → F64) (hcast : ∀ i, (cast i).isFinite = true) (env : Env) (f : SFields)
+    (hw : wfFields f = true) (hsort : sortedStr f.keys = true)
+    (hkeys : ∀ k ∈ f.keys, (k != "type" && k != "init") = true)
+    (hk : keysWritableFields f = true) : variantOpts env (renderFields cast f) = .ok f := by
+  cases f with
+  | nil => simp [renderFields, variantOpts]
+  | cons k n r =>
+    simp only [wfFields, Bool.and_eq_true] at hw
+    simp only [keysWritableFields, Bool.and_eq_true] at hk
+    have hs' := (sortedStr_cons k r.keys).1 (by simpa [SFields.keys] using hsort)
+    have h1 := build_render cast hcast env n hw.1 hk.1
+    have h2 := variantOpts_render cast hcast env r hw.2 hs'.2 (fun x hx => hkeys x (by simp [SFields.keys, hx])) hk.2
+    have h3 := hkeys k (by simp [SFields.keys])
+    simp only [renderFields, variantOpts, asStr_str, h3, if_true, h1, h2, SFields.insert_lt k n r hs'.1]
+termination_by sizeOf f
+end
 
 end Cambrian
